@@ -656,6 +656,7 @@ def install(ex):
     ex.handlers = H + ex.handlers
     install_chrono(ex)
     install_heap(ex)
+    install_c03(ex)
 
 
 # ------------------------------------------------------------------ chrono: dates, times, zones
@@ -811,6 +812,28 @@ def h_utc_now(ex, name, args, path, depth, caller):
     yield Outcome("return", path, ZonedV(ex._now, z3.IntVal(0)))
 
 
+def h_zoned_date(ex, name, args, path, depth, caller):
+    yield Outcome("return", path, deref(args[0]))
+
+
+def h_now_year(ex, name, args, path, depth, caller):
+    """Datelike::year of 'now': a symbolic year 1..9999 (over-approximation: not tied to the day number)"""
+    z = deref(args[0])
+    if not isinstance(z, ZonedV):
+        raise Unsupported("Datelike::year of %r" % (z,))
+    if not hasattr(ex, "_now_year"):
+        ex._now_year = z3.Int("now.year")
+        ex.inputs["now.year"] = ex._now_year
+        ex.domain.append(z3.And(ex._now_year >= 1, ex._now_year <= 9999))
+    yield Outcome("return", path, IntV(ex._now_year, 32, True))
+
+
+def h_from_ymd_opt(ex, name, args, path, depth, caller):
+    y, m, d = deref(args[0]).t, deref(args[1]).t, deref(args[2]).t
+    ok = valid_ymd(y, m, d)
+    yield from fork(ex, path, ok, lambda: some(DateV(days_from_civil(y, m, d))), NONE)
+
+
 def h_zoned_naive(ex, name, args, path, depth, caller):
     z = deref(args[0])
     if name.endswith("naive_utc"):
@@ -909,6 +932,46 @@ def h_regex_new(ex, name, args, path, depth, caller):
     yield Outcome("return", path, EnumV("Result", "Err", [OpaqueV("regex::Error")]))
 
 
+class CapturesV:
+    """regex::Captures as an input: for each group name a presence flag and the matched text"""
+
+    def __init__(self, ex, name="cap"):
+        self.ex, self.name, self.has, self.text = ex, name, {}, {}
+
+    def group(self, g):
+        if g not in self.has:
+            self.has[g] = z3.Bool("%s.has[%s]" % (self.name, g))
+            self.text[g] = z3.String("%s.text[%s]" % (self.name, g))
+            self.ex.inputs["%s.has[%s]" % (self.name, g)] = self.has[g]
+            self.ex.inputs["%s.text[%s]" % (self.name, g)] = self.text[g]
+        return self.has[g], self.text[g]
+
+
+def h_captures_name(ex, name, args, path, depth, caller):
+    cap, g = deref(args[0]), deref(args[1])
+    if not isinstance(cap, CapturesV) or not (isinstance(g, StrV) and g.is_concrete()):
+        raise Unsupported("Captures::name on %r" % (cap,))
+    has, text = cap.group(g.t)
+    yield from fork(ex, path, has, lambda: some(StrV(text)), NONE)
+
+
+def h_match_as_str(ex, name, args, path, depth, caller):
+    yield Outcome("return", path, deref(args[0]))
+
+
+def h_str_parse_int(ex, name, args, path, depth, caller):
+    """str::parse::<iN>: Ok(n) for a string that is a decimal numeral of n (modelled with an uninterpreted
+    numeral function), Err otherwise"""
+    s_ = deref(args[0])
+    m = re.search(r"parse::<(\w+)>$", name)
+    bits, signed = INT_TYPES[m.group(1)]
+    ok = z3.Function("str.is_numeral", z3.StringSort(), z3.BoolSort())(s_.term())
+    n = z3.Function("str.numeral", z3.StringSort(), z3.IntSort())(s_.term())
+    v = IntV(n, bits, signed)
+    ex.domain.append(z3.And(n >= v.lo(), n <= v.hi()))
+    yield from fork(ex, path, ok, lambda: EnumV("Result", "Ok", [v]), lambda: EnumV("Result", "Err", [OpaqueV("ParseIntError")]))
+
+
 def h_event_call(ex, name, args, path, depth, caller):
     """a call recorded as an output event instead of being executed"""
     short = strip_generics(name).split("::")[-1]
@@ -930,6 +993,9 @@ def install_chrono(ex):
     add(r"^(chrono::)?NaiveDateTime::from_timestamp$", h_ndt_from_timestamp)
     add(r"^(chrono::)?Utc::now$", h_utc_now)
     add(r"^DateTime::<.*>::(naive_local|naive_utc)$", h_zoned_naive)
+    add(r"^DateTime::<.*>::date$", h_zoned_date)
+    add(r"^<(Date|DateTime)<.*> as Datelike>::year$", h_now_year)
+    add(r"^(chrono::)?NaiveDate::from_ymd_opt$", h_from_ymd_opt)
     add(r"^(chrono::)?FixedOffset::east$", h_fixed_east)
     add(r"^<(FixedOffset|Utc) as TimeZone>::from_utc_datetime$", h_from_utc_datetime)
     add(r"^<(FixedOffset|Local) as TimeZone>::from_local_datetime$", h_from_local_datetime)
@@ -938,6 +1004,9 @@ def install_chrono(ex):
     add(r"^Cell::<.*>::(get|new)$", h_cell_get)
     add(r"^regex::Regex::new$", h_regex_new)
     add(r"^regex::Regex::split$|^core::str::<impl str>::lines$|^<.* as Iterator>::(map|collect)::<.*>$", h_opaque)
+    add(r"^regex::Captures::<'_>::name$", h_captures_name)
+    add(r"^regex::Match::<'_>::as_str$", h_match_as_str)
+    add(r"^core::str::<impl str>::parse::<(i32|i64|u32|u64|usize|u8)>$", h_str_parse_int)
     add(r"^BTreeMap::<alloc::string::String, Rc<TokenInfo>>::keys$", h_fields_keys)
     add(r"^<alloc::collections::btree_map::Keys<.*> as IntoIterator>::into_iter$", h_identity_keep)
     add(r"^<alloc::collections::btree_map::Keys<.*> as Iterator>::next$", h_keys_next)
@@ -1049,7 +1118,7 @@ def h_slice_iter(ex, name, args, path, depth, caller):
 
 def h_iter_enumerate(ex, name, args, path, depth, caller):
     it = deref(args[0])
-    yield Outcome("return", path, IterV(it.items, it.idx, True))
+    yield Outcome("return", path, IterV(it.items, it.idx, True, it.owned, it.idx))
 
 
 def h_iter_next(ex, name, args, path, depth, caller):
@@ -1057,16 +1126,16 @@ def h_iter_next(ex, name, args, path, depth, caller):
     if not isinstance(it, IterV):
         return NotImplemented
     if it.idx >= len(it.items):
-        return ex.ret_w(path, NONE, {0: IterV(it.items, it.idx, it.enum)})
-    el = RefV(it.items[it.idx])
-    val = TupleV([IntV(it.idx, 64, False), el]) if it.enum else el
-    return ex.ret_w(path, some(val), {0: IterV(it.items, it.idx + 1, it.enum)})
+        return ex.ret_w(path, NONE, {0: IterV(it.items, it.idx, it.enum, it.owned, it.base)})
+    el = it.items[it.idx] if it.owned else RefV(it.items[it.idx])
+    val = TupleV([IntV(it.idx - it.base, 64, False), el]) if it.enum else el
+    return ex.ret_w(path, some(val), {0: IterV(it.items, it.idx + 1, it.enum, it.owned, it.base)})
 
 
 def h_iter_skip(ex, name, args, path, depth, caller):
     it = deref(args[0])
     n = conc_int(deref(args[1]))
-    yield Outcome("return", path, IterV(it.items, it.idx + n, it.enum))
+    yield Outcome("return", path, IterV(it.items, it.idx + n, it.enum, it.owned, it.base))
 
 
 def h_result_is(ex, name, args, path, depth, caller):
@@ -1139,3 +1208,296 @@ def install_heap(ex):
     add(r"^<char as PartialEq>::(eq|ne)$", h_char_eq)
     add(r"^core::slice::<impl \[char\]>::contains$", h_slice_contains)
     add(r"^Arguments::<'_>::(from_str|new|new_const)(::<.*>)?$|^log::__private_api::\w+(::<.*>)?$", h_opaque)
+
+
+# ------------------------------------------------------------------ strings, owned vectors, concrete maps (C03)
+def find_loc(ref):
+    while isinstance(ref, RefV):
+        if ref.loc is not None:
+            return ref.loc
+        ref = ref.v
+    return None
+
+
+def writeback(path, ref, newval, what):
+    """store `newval` behind `ref`: into an object field (heap store) or into the caller's local (write-back)"""
+    loc = find_loc(ref)
+    if loc is not None:
+        return path.store(loc[0], loc[1], what, newval), None
+    if isinstance(ref, RefV) and ref.slot:
+        return path, {0: newval}
+    raise Unsupported("mutation of %s through a reference that is neither a field nor a caller local" % what)
+
+
+def h_new_empty(ex, name, args, path, depth, caller):
+    if "String" in name:
+        yield Outcome("return", path, StrV(""))
+    elif "BTreeMap" in name:
+        yield Outcome("return", path, MapC())
+    else:
+        yield Outcome("return", path, VecV([]))
+
+
+def str_concat(a, b):
+    if a.is_concrete() and b.is_concrete():
+        return StrV(a.t + b.t)
+    return StrV(z3.Concat(a.term(), b.term()))
+
+
+def h_push_str(ex, name, args, path, depth, caller):
+    cur_s = cur(path, args[0])
+    add = deref(args[1])
+    if not (isinstance(cur_s, StrV) and isinstance(add, StrV)):
+        raise Unsupported("push_str on %r" % (cur_s,))
+    p2, wr = writeback(path, args[0], str_concat(cur_s, add), "String")
+    yield Outcome("return", p2, UNIT, writes=wr)
+
+
+def h_vec_mut_any(ex, name, args, path, depth, caller):
+    """Vec::{push,insert,remove,drain} on a field or on a caller local"""
+    v = vec_of(path, args[0])
+    op = strip_generics(name).split("::")[-1]
+    items = list(v.items)
+    ret = UNIT
+    if op == "push":
+        items.append(args[1])
+    elif op == "insert":
+        i = conc_int(deref(args[1]))
+        if i > len(items):
+            yield panic(path, "insertion index (is %d) should be <= len (is %d)" % (i, len(items)), caller.name)
+            return
+        items.insert(i, args[2])
+    elif op == "remove":
+        i = conc_int(deref(args[1]))
+        if i >= len(items):
+            yield panic(path, "removal index (is %d) should be < len (is %d)" % (i, len(items)), caller.name)
+            return
+        ret = items.pop(i)
+    elif op == "drain":
+        a, b = range_bounds(deref(args[1]), len(items))
+        if a > b or b > len(items):
+            yield panic(path, "drain range %d..%d out of bounds (len %d)" % (a, b, len(items)), caller.name)
+            return
+        ret = IterV(items[a:b], 0, False, True)
+        del items[a:b]
+    else:
+        raise Unsupported("Vec::" + op)
+    p2, wr = writeback(path, args[0], VecV(items), "Vec")
+    yield Outcome("return", p2, ret, writes=wr)
+
+
+def range_bounds(r, n):
+    if isinstance(r, StructV) and r.name in ("Range", "RangeFrom", "RangeTo", "RangeFull"):
+        if r.name == "Range":
+            return conc_int(r.f[0]), conc_int(r.f[1])
+        if r.name == "RangeFrom":
+            return conc_int(r.f[0]), n
+        if r.name == "RangeTo":
+            return 0, conc_int(r.f[0])
+        return 0, n
+    raise Unsupported("range %r" % (r,))
+
+
+def h_vec_range_index(ex, name, args, path, depth, caller):
+    v = vec_of(path, args[0])
+    a, b = range_bounds(deref(args[1]), len(v.items))
+    if a > b or b > len(v.items):
+        yield panic(path, "range %d..%d out of bounds for a slice of length %d" % (a, b, len(v.items)), caller.name)
+        return
+    yield Outcome("return", path, VecV(v.items[a:b]))
+
+
+def h_to_vec(ex, name, args, path, depth, caller):
+    yield Outcome("return", path, VecV(vec_of(path, args[0]).items))
+
+
+def h_vec_into_iter(ex, name, args, path, depth, caller):
+    v = cur(path, args[0])
+    if isinstance(v, VecV):
+        yield Outcome("return", path, IterV(list(v.items), 0, False, True))
+    else:
+        raise Unsupported("into_iter of %r" % (v,))
+
+
+def run_closure_each(ex, f, clos, items, path, depth, acc=()):
+    """apply closure f to every item in order; yields (path, [results]) over all outcome combinations"""
+    if not items:
+        yield path, list(acc)
+        return
+    for o in ex.run(f, [clos, items[0]], path, depth + 1):
+        if o.kind == "panic":
+            yield o, None
+            continue
+        yield from run_closure_each(ex, f, clos, items[1:], o.path, depth, acc + (o.value,))
+
+
+def h_iter_map(ex, name, args, path, depth, caller):
+    it = deref(args[0])
+    if not isinstance(it, IterV):
+        return NotImplemented
+    f = closure_fn(ex, name)
+    rest = [(x if it.owned else RefV(x)) for x in it.items[it.idx:]]
+
+    def gen():
+        for p, res in run_closure_each(ex, f, RefV(args[1]), rest, path, depth):
+            if res is None:
+                yield p            # a panic outcome
+            else:
+                yield Outcome("return", p, IterV(res, 0, False, True))
+    return gen()
+
+
+def h_iter_collect(ex, name, args, path, depth, caller):
+    it = deref(args[0])
+    if not isinstance(it, IterV):
+        return NotImplemented
+    items = it.items[it.idx:]
+    if name.endswith("collect::<alloc::string::String>") or name.endswith("collect::<String>"):
+        out = StrV("")
+        for x in items:
+            out = str_concat(out, deref(x))
+        return ex.ret(path, out)
+    if "collect::<Vec<" in name or "collect::<alloc::vec::Vec<" in name:
+        return ex.ret(path, VecV(items))
+    return NotImplemented
+
+
+def h_iter_sum(ex, name, args, path, depth, caller):
+    it = deref(args[0])
+    if not isinstance(it, IterV):
+        return NotImplemented
+    tot = z3.IntVal(0)
+    for x in it.items[it.idx:]:
+        tot = tot + deref(x).t
+    return ex.ret(path, IntV(z3.simplify(tot), 64, False))
+
+
+def mapc_of(path, ref):
+    v = cur(path, ref)
+    return v if isinstance(v, MapC) else None
+
+
+def conc_key(k):
+    k = deref(k)
+    if isinstance(k, StrV) and k.is_concrete():
+        return k.t
+    raise Unsupported("map key must be a concrete string, got %r" % (k,))
+
+
+def h_mapc_contains(ex, name, args, path, depth, caller):
+    m = mapc_of(path, args[0])
+    if m is None:
+        return NotImplemented
+    return ex.ret(path, z3.BoolVal(conc_key(args[1]) in m.d))
+
+
+def h_mapc_get(ex, name, args, path, depth, caller):
+    m = mapc_of(path, args[0])
+    if m is None:
+        return NotImplemented
+    k = conc_key(args[1])
+    return ex.ret(path, some(RefV(m.d[k])) if k in m.d else NONE)
+
+
+def h_mapc_index(ex, name, args, path, depth, caller):
+    m = mapc_of(path, args[0])
+    if m is None:
+        return NotImplemented
+    k = conc_key(args[1])
+    if k not in m.d:
+        return ex.ret_panic(path, "no entry found for key", caller.name)
+    return ex.ret(path, RefV(m.d[k]))
+
+
+def h_mapc_insert(ex, name, args, path, depth, caller):
+    m = mapc_of(path, args[0])
+    if m is None:
+        return NotImplemented
+    k = conc_key(args[1])
+    d = dict(m.d)
+    old = d.get(k)
+    d[k] = args[2]
+    p2, wr = writeback(path, args[0], MapC(d), "BTreeMap")
+    return ex.ret_w(p2, some(old) if old is not None else NONE, wr)
+
+
+def h_mapc_remove(ex, name, args, path, depth, caller):
+    m = mapc_of(path, args[0])
+    if m is None:
+        return NotImplemented
+    k = conc_key(args[1])
+    d = dict(m.d)
+    old = d.pop(k, None)
+    p2, wr = writeback(path, args[0], MapC(d), "BTreeMap")
+    return ex.ret_w(p2, some(old) if old is not None else NONE, wr)
+
+
+def h_mapc_iter(ex, name, args, path, depth, caller):
+    m = mapc_of(path, args[0])
+    if m is None:
+        return NotImplemented
+    return ex.ret(path, IterV([TupleV([RefV(StrV(k)), RefV(m.d[k])]) for k in sorted(m.d)], 0, False, True))
+
+
+def h_borrow_keep(ex, name, args, path, depth, caller):
+    """RefCell::borrow_mut / DerefMut::deref_mut: keep the reference (it carries the location)"""
+    yield Outcome("return", path, args[0])
+
+
+def h_enum_eq(ex, name, args, path, depth, caller):
+    a, b = deref(args[0]), deref(args[1])
+
+    def tag(v):
+        if isinstance(v, EnumV):
+            return z3.IntVal(ex.discr(v.enum, v.variant))
+        if isinstance(v, SymV):
+            return v.tag()
+        raise Unsupported("enum comparison on %r" % (v,))
+    r = tag(a) == tag(b)
+    yield Outcome("return", path, z3.Not(r) if name.endswith("::ne") else r)
+
+
+def h_string_len(ex, name, args, path, depth, caller):
+    v = cur(path, args[0])
+    if isinstance(v, StrV) and v.is_concrete():
+        yield Outcome("return", path, IntV(len(v.t.encode("utf-8")), 64, False))
+    elif isinstance(v, StrV):
+        yield Outcome("return", path, IntV(z3.Length(v.term()), 64, False))
+    else:
+        raise Unsupported("String::len of %r" % (v,))
+
+
+def h_usize_max(ex, name, args, path, depth, caller):
+    yield Outcome("return", path, IntV((1 << 64) - 1, 64, False))
+
+
+def h_deref_assign(ex, name, args, path, depth, caller):
+    raise Unsupported("deref assign")
+
+
+def install_c03(ex):
+    def add(rx, fn):
+        ex.handlers.insert(0, (re.compile(rx), fn))
+
+    add(r"^(alloc::string::)?String::(new|with_capacity)$|^Vec::<.*>::(new|with_capacity)$|^BTreeMap::<.*>::new$", h_new_empty)
+    add(r"^(alloc::string::)?String::push_str$", h_push_str)
+    add(r"^Vec::<.*>::(push|insert|remove)$|^Vec::<.*>::drain::<.*>$", h_vec_mut_any)
+    add(r"^<Vec<.*> as (core::ops::)?Index<(core::ops::)?Range(From|To|Full)?(<usize>)?>>::index$", h_vec_range_index)
+    add(r"^alloc::slice::<impl \[.*\]>::to_vec$", h_to_vec)
+    add(r"^<Vec<.*> as IntoIterator>::into_iter$", h_vec_into_iter)
+    add(r"^<alloc::vec::IntoIter<.*> as Iterator>::next$|^<alloc::collections::btree_map::Iter<.*> as Iterator>::next$|^<alloc::vec::Drain<.*> as Iterator>::next$", h_iter_next)
+    add(r"^<alloc::collections::btree_map::Iter<.*> as IntoIterator>::into_iter$|^<alloc::vec::IntoIter<.*> as IntoIterator>::into_iter$", h_identity_keep)
+    add(r"^<core::slice::Iter<.*> as Iterator>::map::<.*>$", h_iter_map)
+    add(r"^<core::iter::Map<.*> as Iterator>::collect::<.*>$", h_iter_collect)
+    add(r"^<core::iter::Map<.*> as Iterator>::sum::<usize>$", h_iter_sum)
+    add(r"^BTreeMap::<alloc::string::String, Rc<VariableInfo>>::contains_key::<.*>$", h_mapc_contains)
+    add(r"^BTreeMap::<alloc::string::String, Rc<VariableInfo>>::get::<.*>$", h_mapc_get)
+    add(r"^<BTreeMap<alloc::string::String, Rc<VariableInfo>> as (core::ops::)?Index<&(alloc::string::)?String>>::index$", h_mapc_index)
+    add(r"^BTreeMap::<alloc::string::String, Rc<VariableInfo>>::insert$", h_mapc_insert)
+    add(r"^BTreeMap::<alloc::string::String, Rc<VariableInfo>>::iter$", h_mapc_iter)
+    add(r"^BTreeMap::<alloc::string::String, Rc<VariableInfo>>::remove::<.*>$", h_mapc_remove)
+    add(r"^RefCell::<.*>::borrow_mut$|^<RefMut<.*> as DerefMut>::deref_mut$", h_borrow_keep)
+    add(r"^RefCell::<.*>::new$|^Cell::<.*>::new$", h_rc_new)
+    add(r"^<(TokenInfoStatus|tokinizer::TokenInfoStatus|NumberType|types::NumberType) as PartialEq>::(eq|ne)$", h_enum_eq)
+    add(r"^core::num::<impl usize>::max_value$", h_usize_max)
+    add(r"^(alloc::string::)?String::len$|^core::str::<impl str>::len$", h_string_len)
